@@ -8,6 +8,10 @@ import terms as tm
 from terms import T, mk, const, ite, UNINIT, TRUE, FALSE
 
 
+import re
+_STD_RE = re.compile(r'\bstd::')
+
+
 class Abort(Exception):
     """construct outside the analysable fragment; the root becomes UNDECIDED / unverifiable"""
     pass
@@ -1151,12 +1155,14 @@ class Interp(object):
         return out
 
     # ---------------------------------------------------------------- calls
+    _NORM = {}
+
     def norm_path(self, d):
-        if d.startswith('std::'):
-            d = 'core::' + d[5:]
-        elif d.startswith('alloc::'):
-            d = 'core::' + d[7:]
-        return d
+        r = self._NORM.get(d)
+        if r is None:
+            r = _STD_RE.sub('core::', d)
+            self._NORM[d] = r
+        return r
 
     def do_call(self, fr, t):
         callee, argops, dest, target, line = t[1], t[2], t[3], t[4], t[5]
@@ -1256,6 +1262,8 @@ class Interp(object):
         except Abort:
             return [(c[1], None, None) for c in v.cells.values()] + [(x, None, None) for x in v.discr.values()]
         covered = set()
+        skip = self.opts.get('skip_offsets')
+        hid = set(skip(tyid)) if skip is not None else ()
         for (off, sz, lt) in lv:
             if sz == 0:
                 dv = v.discr.get((off, lt[1])) if isinstance(lt, tuple) else None
@@ -1266,6 +1274,10 @@ class Interp(object):
             if c is None:
                 continue
             covered.add(off)
+            if off in hid:
+                # not part of the value of that type (hidden lane); opaque code can only observe it
+                # through the public API, which is analysed on its own
+                continue
             if lt == -1:
                 out.append((c[1], None, None))
             elif self.F.types[lt].get('k') == 'ptr':
